@@ -1,5 +1,6 @@
 """C18 — replaying a report reproduces it (models M10 `Replay`, M4 `Writer`, the C07 stream grammar)."""
 import copy
+import os
 import shutil
 import tempfile
 import threading
@@ -7,7 +8,7 @@ import threading
 import common as C
 from gen import reports as R
 from obs import grammar as G
-from props.c09 import first_diff, count_results, has_unfinished, _SaveLoad
+from props.c09 import first_diff, count_results, has_unfinished, none_text_positions
 
 PROPERTY = "C18"
 LEAN_MODULES = ["LccModel.Props.C18"]
@@ -20,6 +21,8 @@ TRUSTED_BASE = [
     "LccModel/Model/Writer.lean (reporting/writer.py, report.py accessors) and LccModel/Model/Grammar.lean (the C07 stream grammar)",
     "correspondence harness harness/props/c18.py, harness/gen/reports.py, harness/obs/grammar.py (independent Python recogniser of the "
     "grammar, used as oracle and cross-checked against the Lean acceptor on ill-formed streams)",
+    "LccModel/Model/Serial.lean (`loaded`: what save + load gives back — accessor order, ranks 0) as tied to json_.py / xml.py by C09; "
+    "the C18 streams observe the loaded form directly (real JsonBackend / XmlBackend save_report + load_report) and hand it to the model",
     "`time.time()` inside Event.__init__ is replaced by a constant for the duration of a replay (the model's parameter `now`)",
 ]
 ASSUMPTIONS = [
@@ -28,12 +31,17 @@ ASSUMPTIONS = [
     "skipped/disabled tests have no steps and end_time == start_time, status_details only on skipped/disabled tests; sibling names distinct",
     "title, info, nb_threads and saving_time are not carried by events and are excluded from the comparison",
 ]
-RULE = ("a generated (or really produced) report replayed through replay_report_events + SyncEventManager into a fresh ReportWriter; "
+RULE = ("a generated (or really produced) report, in memory AND as loaded back from its JSON and from its XML file (real backends), each "
+        "form replayed through replay_report_events + SyncEventManager into a fresh ReportWriter; node names drawn from a class with dots, "
+        "dashes, digits, punctuation, blank / non-ASCII text and names whose dotted path string spells another node; sibling start times "
+        "frequently out of the order the report holds them, or equal (features name:* / siblings-* count them); "
         "non-trivial = at least 2 results and (a non-plain string, an unfinished item or steps from several threads); "
         "for C18.writer: an event stream of at least 4 events; distinct = hash of the case")
 EXPLANATION = ("Theorems: the replayed stream of every report satisfies the containment grammar, of every finished report the strict "
                "sequential C07 grammar; fold(replay r) is computed exactly for every report with distinct sibling names (replayImage) and is r "
-               "itself for exactly the writer-shaped reports (replayExact). The models are tied to replay.py / writer.py by replaying "
+               "itself for exactly the writer-shaped reports (replayExact) — for any ranks; for a LOADED report (ranks 0, children in file order) "
+               "it is literally the report, and save -> load -> replay -> aggregate is the loaded report (composition with C09's round-trip "
+               "theorems), so no theorem leans on ranks surviving. The models are tied to replay.py / writer.py by replaying "
                "generated reports and reports of real (parallel, interrupted) runs through the real code, and by feeding random, also "
                "ill-formed, event sequences to the real ReportWriter.")
 
@@ -82,6 +90,139 @@ def real_replay(report_obj, nb_threads):
             c["tid"] = 1 if c["tid"] == me else c["tid"]
         evs.append(c)
     return evs, new, err
+
+
+FORMS = ("mem", "json", "xml")
+
+
+def observe_form(rep_obj, desc):
+    """one form of a report (the object graph `rep_obj`, described by `desc`) replayed through the real code"""
+    evs, new, err = real_replay(rep_obj, desc["nb_threads"])
+    return {"outcome": "ok", "desc": desc, "events": evs, "rebuilt": R.canon_report(new), "rebuilt_nf": R.nf_report(new), "error": err,
+            "writer_shaped": writer_shaped(desc), "tail_unfinished": tail_unfinished(desc)}
+
+
+def observe_forms(desc, scratch_dir):
+    """The property is about LOADED reports: the report in memory, and what each serialisation backend of the repo gives back
+    for it (`load_report(save_report(r))`: children in accessor order, ranks lost), each replayed into a fresh ReportWriter.
+    A backend that cannot save / load the report (C09's business: XML text limits, missing start times) is skipped for that case."""
+    import os
+    from lemoncheesecake.reporting import JsonBackend, XmlBackend
+    from lemoncheesecake.exceptions import ReportLoadingError
+    rep = R.build_report(desc)
+    out = {"mem": observe_form(rep, desc)}
+    for key, backend, fname in (("json", JsonBackend(), "report.js"), ("xml", XmlBackend(), "report.xml")):
+        path = os.path.join(scratch_dir, fname)
+        try:
+            backend.save_report(path, rep)
+        except (TypeError, UnicodeEncodeError, ValueError) as e:
+            out[key] = {"outcome": "save-error:" + type(e).__name__}
+            continue
+        try:
+            loaded = backend.load_report(path)
+        except ReportLoadingError:
+            out[key] = {"outcome": "load-error"}
+            continue
+        ldesc = R.canon_report(loaded)
+        o = observe_form(loaded, ldesc)
+        # strings the Lean side cannot hold (C09/xml/empty-text-loads-None: a mandatory text that came back as None)
+        o["model_ok"] = not none_text_positions(ldesc)
+        out[key] = o
+    return out
+
+
+def forms_oracle(obs):
+    fails = []
+    for key in FORMS:
+        o = obs[key]
+        if o["outcome"] != "ok":
+            continue
+        for f in replay_oracle(o["desc"], o):
+            f.message = "[%s] %s" % ("in-memory report" if key == "mem" else key + "-loaded report", f.message)
+            fails.append(f)
+    return fails
+
+
+def forms_request(obs, nb_threads):
+    keys = [k for k in FORMS if obs[k]["outcome"] == "ok" and obs[k].get("model_ok", True)]
+    return {"op": "replays", "reports": [R.wire(obs[k]["desc"]) for k in keys], "now": NOW_MS, "tid": 1, "nb_threads": nb_threads}
+
+
+def forms_compare(obs, ans):
+    if "error" in ans:
+        return "model error: " + ans["error"]
+    keys = [k for k in FORMS if obs[k]["outcome"] == "ok" and obs[k].get("model_ok", True)]
+    for k, a in zip(keys, ans["answers"]):
+        d = compare_form(obs[k]["desc"], obs[k], a, loaded=k != "mem")
+        if d:
+            return "[%s] %s" % (k, d)
+    return None
+
+
+def _neutral(exp, got):
+    got = copy.deepcopy(got)
+    for k in ("title", "info", "nb_threads"):
+        got[k] = exp[k]
+    return got
+
+
+def compare_form(desc, obs, ans, loaded=False):
+    if "error" in ans:
+        return "model error: " + ans["error"]
+    mev = R.unwire(ans["events"])
+    d = first_diff(obs["events"], mev)
+    if d:
+        return f"replayed stream differs at {d[0]}: real {d[1]!r} model {d[2]!r}"
+    f = ans["fold"]
+    if obs["error"]:
+        return None if f.get("err") == obs["error"] else f"real replay raised {obs['error']}, model: {str(f)[:200]}"
+    if "err" in f:
+        return f"model's writer raises {f['err']} at event {f['at']}, the real one does not"
+    d = first_diff(obs["rebuilt"], R.unwire(f["ok"]))
+    if d:
+        return f"rebuilt report differs at {d[0]}: real {d[1]!r} model {d[2]!r}"
+    if ans["names_ok"] and not ans["image_agrees"]:
+        return "model: fold(replay r) differs from replayImage r although sibling names are distinct (theorem replay_fold_image)"
+    g = ans["grammar"]
+    real_g = {"lenient": G.check(obs["events"], strict=False) is None, "prefix": G.check(obs["events"], strict=True) is None,
+              "complete": G.check(obs["events"], strict=True, complete=True) is None,
+              "sequential": G.check(obs["events"], strict=True, sequential=True) is None}
+    if g != real_g:
+        return f"grammar verdicts differ: python checker {real_g} vs Lean acceptor {g}"
+    if loaded and not ans["ranks_zero"]:
+        return "a loaded report carries a non-zero rank"
+    if ans["exact"] and ans["names_ok"]:
+        exp = R.nf_of_desc(desc)
+        dd = first_diff(exp, _neutral(exp, obs["rebuilt_nf"]))
+        if dd:
+            return f"guard replayExact holds but the real replay changed {dd[0]}"
+        if ans["ranks_zero"]:
+            # theorem replay_roundtrip_loaded_partial: literally the same report, children in the order the report holds them
+            if not ans["literal_identity"]:
+                return "model: ranks are zero and the guards hold, yet fold(replay r) is not literally r"
+            exp = dict(R.strip_private(desc), saving=None)
+            dd = first_diff(exp, _neutral(exp, dict(obs["rebuilt"], saving=None)))
+            if dd:
+                return f"ranks are zero and the guards hold but the real replay is not the literal identity: {dd[0]}"
+    return None
+
+
+def forms_features(d, obs):
+    f = list(R.shape_features(d))
+    for key in FORMS:
+        o = obs[key]
+        if key != "mem":
+            f.append(key + "-loaded:" + o["outcome"])
+        if o["outcome"] != "ok":
+            continue
+        if o["error"]:
+            f.append(key + ":raised:" + o["error"])
+        if key != "mem":
+            sf = R.shape_features(o["desc"])
+            f += [key + "-loaded:" + x for x in sf if x.startswith("siblings-") and ":" not in x or x == "name:dotted-on-step-path"]
+            if o["writer_shaped"]:
+                f.append(key + "-loaded:writer-shaped")
+    return f
 
 
 def writer_shaped(d):
@@ -190,7 +331,7 @@ class ReplayStream(C.Stream):
     name = "C18.replay"
     quick_cases = 300
     thorough_cases = 6000
-    quick_seconds = 25
+    quick_seconds = 40
     thorough_seconds = 300
     chunk = 40
     corpus = []
@@ -200,64 +341,37 @@ class ReplayStream(C.Stream):
         odd = rng.random() < 0.25
         return {"report": R.gen_report(rng, mode, odd=odd, zero_times=0.01 if odd else 0, stray_unfinished_steps=rng.random() < 0.3)}
 
+    def setup(self, ctx):
+        self.dir = tempfile.mkdtemp(prefix="lccverif-c18-")
+
+    def teardown(self, ctx):
+        shutil.rmtree(self.dir, ignore_errors=True)
+
     def impl(self, case):
-        desc = R.strip_private(case["report"])
-        rep = R.build_report(desc)
-        evs, new, err = real_replay(rep, desc["nb_threads"])
-        return {"events": evs, "rebuilt": R.canon_report(new), "rebuilt_nf": R.nf_report(new), "error": err,
-                "writer_shaped": writer_shaped(desc), "tail_unfinished": tail_unfinished(desc)}
+        if not getattr(self, "dir", None) or not os.path.isdir(self.dir):
+            self.setup(None)
+        return observe_forms(R.strip_private(case["report"]), self.dir)
 
     def oracle(self, case, obs):
-        return replay_oracle(R.strip_private(case["report"]), obs)
+        return forms_oracle(obs)
 
     def request(self, case, obs):
-        return {"op": "replay", "report": R.wire(case["report"]), "now": NOW_MS, "tid": 1, "nb_threads": case["report"]["nb_threads"]}
+        return forms_request(obs, case["report"]["nb_threads"])
 
     def compare(self, case, obs, ans):
-        if "error" in ans:
-            return "model error: " + ans["error"]
-        mev = R.unwire(ans["events"])
-        d = first_diff(obs["events"], mev)
-        if d:
-            return f"replayed stream differs at {d[0]}: real {d[1]!r} model {d[2]!r}"
-        f = ans["fold"]
-        if obs["error"]:
-            return None if f.get("err") == obs["error"] else f"real replay raised {obs['error']}, model: {str(f)[:200]}"
-        if "err" in f:
-            return f"model's writer raises {f['err']} at event {f['at']}, the real one does not"
-        d = first_diff(obs["rebuilt"], R.unwire(f["ok"]))
-        if d:
-            return f"rebuilt report differs at {d[0]}: real {d[1]!r} model {d[2]!r}"
-        if ans["names_ok"] and not ans["image_agrees"]:
-            return "model: fold(replay r) differs from replayImage r although sibling names are distinct (theorem replay_fold_image)"
-        g = ans["grammar"]
-        real_g = {"lenient": G.check(obs["events"], strict=False) is None, "prefix": G.check(obs["events"], strict=True) is None,
-                  "complete": G.check(obs["events"], strict=True, complete=True) is None,
-                  "sequential": G.check(obs["events"], strict=True, sequential=True) is None}
-        if g != real_g:
-            return f"grammar verdicts differ: python checker {real_g} vs Lean acceptor {g}"
-        if ans["exact"] and ans["names_ok"]:
-            exp = R.nf_of_desc(case["report"])
-            got = copy.deepcopy(obs["rebuilt_nf"])
-            for k in ("title", "info", "nb_threads"):
-                got[k] = exp[k]
-            dd = first_diff(exp, got)
-            if dd:
-                return f"guard replayExact holds but the real replay changed {dd[0]}"
-        return None
+        return forms_compare(obs, ans)
 
     def nontrivial(self, case, obs):
         d = case["report"]
         return count_results(d) >= 2 and (bool(d.get("_classes")) or has_unfinished(d))
 
     def features(self, case, obs):
-        d = case["report"]
-        f = ["writer-shaped" if obs["writer_shaped"] else "not-writer-shaped",
-             "finished" if all_finished(d) else ("tail-unfinished" if obs["tail_unfinished"] else "stray-unfinished"),
-             "events<=20" if len(obs["events"]) <= 20 else ("events<=100" if len(obs["events"]) <= 100 else "events>100")]
-        if obs["error"]:
-            f.append("raised:" + obs["error"])
-        return f
+        d = R.strip_private(case["report"])
+        m = obs["mem"]
+        f = ["writer-shaped" if m["writer_shaped"] else "not-writer-shaped",
+             "finished" if all_finished(d) else ("tail-unfinished" if m["tail_unfinished"] else "stray-unfinished"),
+             "events<=20" if len(m["events"]) <= 20 else ("events<=100" if len(m["events"]) <= 100 else "events>100")]
+        return f + forms_features(d, obs)
 
     def shrink(self, case):
         for c in R.shrink_desc(case["report"]):
@@ -427,28 +541,38 @@ def make_suites(rng):
             elif kind == "empty":
                 pass
         body.__name__ = name
-        f = lcc.test(name.replace("_", " "))(body)
-        if kind == "disabled":
-            f = lcc.disabled()(f)
-        return f
+        return body
 
     def make_suite(name, depth, path=""):
-        path = (path + "." if path else "") + name
+        # the name a node REPORTS (`name=` of the decorators) is any text: dotted for a good part of them
+        shown = name + rng.choice(["", "", ".v1", ".2", "-x"])
+        path = (path + "." if path else "") + shown
         attrs = {}
         kinds = ["pass", "pass", "fail", "error", "raise", "threads", "empty", "disabled"]
         n = rng.randint(1, 4)
+        kind = [rng.choice(kinds) for _ in range(n)]
+        attr = ["%s_t%d" % (name, i) for i in range(n)]
+        tname = [a + rng.choice(["", "", "_1.2", ".b", "-c"]) for a in attr]
+        deps = [[] for _ in range(n)]
         prev_fail = None
         for i in range(n):
-            kind = rng.choice(kinds)
-            tname = "%s_t%d" % (name, i)
-            f = make_test(tname, "pass" if kind == "disabled" else kind)
-            if kind == "disabled":
+            if kind[i] != "disabled" and prev_fail is not None and rng.random() < 0.5:
+                deps[i].append(prev_fail)        # will be skipped
+            if kind[i] in ("fail", "error", "raise"):
+                prev_fail = i
+        for i in range(n):
+            # a dependency on a test declared LATER: this one is executed after it, yet listed before it in the report
+            later = [j for j in range(i + 1, n) if not deps[j]]
+            if kind[i] != "disabled" and not deps[i] and later and rng.random() < 0.4:
+                deps[i].append(rng.choice(later))
+        for i in range(n):
+            f = make_test(attr[i], "pass" if kind[i] == "disabled" else kind[i])
+            f = lcc.test(attr[i].replace("_", " "), name=tname[i])(f)
+            if kind[i] == "disabled":
                 f = lcc.disabled()(f)
-            elif prev_fail and rng.random() < 0.5:
-                f = lcc.depends_on(prev_fail)(f)        # will be skipped
-            if kind in ("fail", "error", "raise"):
-                prev_fail = path + "." + tname
-            attrs[tname] = f
+            for j in deps[i]:
+                f = lcc.depends_on(path + "." + tname[j])(f)
+            attrs[attr[i]] = f
         if rng.random() < 0.4:
             def setup_suite(self):
                 lcc.log_info("suite setup")
@@ -461,7 +585,7 @@ def make_suites(rng):
             sub = make_suite(name + "_sub", depth + 1, path)
             attrs[sub.__name__] = sub
         cls = type(name, (object,), attrs)
-        return lcc.suite(name.replace("_", " "))(cls)
+        return lcc.suite(name.replace("_", " "), name=shown)(cls)
     return [make_suite("suite%d" % i, 0) for i in range(rng.randint(1, 3))]
 
 
@@ -520,23 +644,31 @@ class RunsStream(C.Stream):
         rng = random.Random(case["seed"])
         final, snap = run_real(make_suites(rng), case["nb_threads"], case["snapshot_at"])
         desc = snap if snap is not None else final
+        if not getattr(self, "dir", None) or not os.path.isdir(self.dir):
+            self.setup(None)
         # ms rounding as the file formats do (a run's times are arbitrary floats)
-        rep = R.build_report(desc)
-        evs, new, err = real_replay(rep, desc["nb_threads"])
-        return {"desc": desc, "events": evs, "rebuilt": R.canon_report(new), "rebuilt_nf": R.nf_report(new), "error": err,
-                "writer_shaped": writer_shaped(desc), "tail_unfinished": tail_unfinished(desc), "snapshot": snap is not None}
+        out = observe_forms(desc, self.dir)
+        out["desc"] = desc
+        out["snapshot"] = snap is not None
+        return out
+
+    def setup(self, ctx):
+        self.dir = tempfile.mkdtemp(prefix="lccverif-c18-")
+
+    def teardown(self, ctx):
+        shutil.rmtree(self.dir, ignore_errors=True)
 
     def oracle(self, case, obs):
-        fails = replay_oracle(obs["desc"], obs)
-        if not obs["writer_shaped"]:
+        fails = forms_oracle(obs)
+        if not obs["mem"]["writer_shaped"]:
             fails.append(C.Failure("C18/runs/real-report-not-writer-shaped", "a report produced by the real runner is not writer-shaped"))
         return fails
 
     def request(self, case, obs):
-        return {"op": "replay", "report": R.wire(obs["desc"]), "now": NOW_MS, "tid": 1, "nb_threads": obs["desc"]["nb_threads"]}
+        return forms_request(obs, obs["desc"]["nb_threads"])
 
     def compare(self, case, obs, ans):
-        return ReplayStream.compare(self, {"report": obs["desc"]}, obs, ans)
+        return forms_compare(obs, ans)
 
     def nontrivial(self, case, obs):
         return count_results(obs["desc"]) >= 2
@@ -544,10 +676,10 @@ class RunsStream(C.Stream):
     def features(self, case, obs):
         d = obs["desc"]
         f = ["threads=%d" % case["nb_threads"], "snapshot" if obs["snapshot"] else "final",
-             "finished" if all_finished(d) else ("tail-unfinished" if obs["tail_unfinished"] else "stray-unfinished")]
+             "finished" if all_finished(d) else ("tail-unfinished" if obs["mem"]["tail_unfinished"] else "stray-unfinished")]
         sts = {str(t["res"]["status"]) for t in R.iter_tests(d)}
         f += ["status:" + s for s in sorted(sts)]
-        return f
+        return f + forms_features(d, obs)
 
 
 def _mini(step_end=R.T0 + 3, log_t=R.T0 + 2, test_end=R.T0 + 4, status="passed"):
@@ -561,10 +693,56 @@ def _mini(step_end=R.T0 + 3, log_t=R.T0 + 2, test_end=R.T0 + 4, status="passed")
                        "saving": None, "setup": None, "teardown": None, "suites": [suite]}}
 
 
+def _md(name, rank=0):
+    return {"name": name, "desc": "d", "tags": [], "props": [], "links": [], "rank": rank}
+
+
+def _res(t, steps=1, end=True):
+    """a passed result starting at T0+t holding `steps` one-log steps (4 ms each)"""
+    sts = [{"desc": "s%d" % k, "start": R.T0 + t + 4 * k + 1, "end": R.T0 + t + 4 * k + 3,
+            "entries": [{"k": "log", "level": "info", "msg": "m", "t": R.T0 + t + 4 * k + 2}]} for k in range(steps)]
+    return {"steps": sts, "start": R.T0 + t, "end": R.T0 + t + 4 * steps + 1 if end else None, "status": "passed" if end else None,
+            "details": None}
+
+
+def _test(name, t, rank=0, steps=1):
+    return {"md": _md(name, rank), "res": _res(t, steps)}
+
+
+def _suite(name, t, tests=(), suites=(), setup=None, teardown=None, rank=0, length=90):
+    return {"md": _md(name, rank), "start": R.T0 + t, "end": R.T0 + t + length, "setup": setup, "teardown": teardown,
+            "tests": list(tests), "suites": list(suites)}
+
+
+def _report(*suites):
+    return {"report": {"title": "t", "info": [], "nb_threads": 1, "start": R.T0, "end": R.T0 + 1000, "saving": None, "setup": None,
+                       "teardown": None, "suites": list(suites)}}
+
+
 ReplayStream.corpus = [
     _mini(step_end=None, test_end=None, status=None),      # D6 (fixed by fixes/D6-replay-unfinished-step.diff)
     _mini(log_t=0),                                        # C18/replay/zero-time-becomes-now
     _mini(),
+    # -- names that contain the path separator (minimised failing inputs of the seeded change C18-2: replay going through the
+    #    string form of a path) --
+    _report(_suite("s", 10, tests=[_test("compat_1.2", 20)])),                                   # a parametrized test's name
+    _report(_suite("a.b", 10, setup=_res(12), teardown=_res(60), tests=[_test("t", 30)])),         # @lcc.suite(name="a.b")
+    _report(_suite(".", 10, tests=[_test("..", 20), _test("", 40)])),                              # empty path components
+    # the string form of the second suite's path spells the first suite's sub-suite: steps would land in ANOTHER node
+    _report(_suite("a", 10, suites=[_suite("b", 12, setup=_res(14), tests=[_test("t", 30)], length=50)]),
+            _suite("a.b", 200, setup=_res(202), tests=[_test("t", 230, steps=2)])),
+    _report(_suite("s", 10, tests=[_test("u.t", 20, steps=2)], suites=[_suite("u", 50, tests=[_test("t", 52)], length=30)])),
+    # -- siblings whose start times are not in the order the report holds them, ranks all 0 = a report loaded from a file
+    #    (minimised failing inputs of the seeded change C18-3: replay in chronological order) --
+    _report(_suite("s", 10, tests=[_test("later", 60), _test("earlier", 20)])),                  # depends_on a test declared after it
+    _report(_suite("s2", 500, tests=[_test("t", 510)]), _suite("s1", 10, tests=[_test("t", 20)])),     # top-level suites
+    _report(_suite("s", 10, suites=[_suite("b", 50, tests=[_test("t", 52)], length=30), _suite("a", 12, tests=[_test("t", 14)], length=30)])),
+    _report(_suite("s", 10, tests=[_test("x", 20), _test("y", 20), _test("w", 20)])),             # equal start times
+    # a step left open by one thread followed by a step of another one (minimised failing input of the seeded change C18-1)
+    _report(_suite("s", 10, tests=[{"md": _md("t"), "res": dict(_res(20, steps=2), steps=[dict(_res(20, steps=2)["steps"][0], end=None),
+                                                                                       _res(20, steps=2)["steps"][1]])}])),
+    # ranks present and contradicting both the list order and the start times (an in-memory report of a parallel run)
+    _report(_suite("s", 10, tests=[_test("c", 60, rank=1), _test("a", 20, rank=2), _test("b", 40, rank=0)])),
 ]
 
 
